@@ -102,6 +102,10 @@ def regenerate(tmp):
     rc, out = run(['go', 'run'] + modfile_args(tmp) + ['-tags', 'verif', './extract', REPO, out_dir], cwd=HARNESS, env=GOENV, timeout=600)
     if rc != 0:
         return False, out
+    # scalar leaf functions translated from the Go source (harness/gotolean)
+    rc, out2 = run(['go', 'run'] + modfile_args(tmp) + ['./gotolean', REPO, os.path.join(out_dir, 'GoFuncs.lean')], cwd=HARNESS, env=GOENV, timeout=600)
+    if rc != 0:
+        return False, out + out2
     produced = set()
     for f in sorted(os.listdir(out_dir)):
         produced.add(f)
